@@ -16,6 +16,7 @@
 Provides classes for generating and analyzing complex climate networks.
 """
 
+from pickle import UnpicklingError
 from typing import Tuple
 from collections.abc import Hashable
 
@@ -211,7 +212,8 @@ class MutualInfoClimateNetwork(ClimateNetwork):
                           "incorrect dimensions!")
                     raise RuntimeError
 
-        except (IOError, RuntimeError, EOFError, ValueError):
+        except (IOError, RuntimeError, EOFError, ValueError,
+                UnpicklingError):
             if self.silence_level <= 1:
                 print("An error occured while loading data from "
                       f"{self.mi_file}.")
